@@ -152,7 +152,7 @@ from .asttypes import (
 
 __all__ = [
     'bistr', 'constant',
-    'repr_str_multiline',
+    'repr_constant', 'repr_str_multiline',
     'is_valid_identifier', 'is_valid_identifier_dotted', 'is_valid_identifier_star', 'is_valid_identifier_alias',
     'is_valid_MatchSingleton_value', 'is_valid_MatchValue_value', 'is_valid_MatchMapping_key',
     'is_valid_target', 'is_valid_del_target',
@@ -496,6 +496,22 @@ def _escape_char(c: str) -> str:
         return c.encode('unicode_escape').decode('ascii')
 
     return c
+
+
+def repr_constant(value: constant) -> str:
+    """Get source for a `Constant.value` primitive. This is `repr()` except for the values whose `repr()` is a name and
+    not a literal, `Ellipsis` gives `...` and an infinite `float` or `complex` gives an overflowing literal like
+    `ast.unparse()` does."""
+
+    if value is ...:
+        return '...'
+
+    src = repr(value)
+
+    if isinstance(value, (float, complex)):
+        src = src.replace('inf', '1e309')
+
+    return src
 
 
 def repr_str_multiline(string: str) -> str:
